@@ -23,19 +23,34 @@ func sizeStream(prop, focus string, alpha []string) stream {
 			ncols, nrows := 2+r.n(3), 3+r.n(4)
 			cell := func() string { return g.strItem(r.text(alpha, 3)) }
 			special := ""
-			switch c % 5 {
+			switch []int{0, 2, 1, 2, 3, 2, 4, 2}[c%8] {
 			case 0:
 				nrows = 150 + r.n(250)
-				if c%10 == 0 {
+				if c%16 == 0 {
 					nrows = 1200 + r.n(600) // past 64 KiB of output in every format
 				}
 			case 1:
 				ncols = 20 + r.n(21)
 			case 2:
-				special = g.strItem(strings.Repeat(r.pick([]string{"x", "ab ", "世", "é-"}), 1500+r.n(1500)))
+				// a single value of several KiB, also one whose ESCAPED form is what crosses 4 KiB
+				unit := r.pick([]string{"x", "ab ", "世", "é-", "\"", "a\"", "<", "&x", "|", "a\\", "\"\"x"})
+				if r.chance(1, 2) {
+					// the characters this format has to escape: the escaped form is the longer one
+					unit = r.pick(map[string][]string{"csv": {"\"", "a\"", "\"\""}, "html": {"<", "&", "'", "\"x"}, "markdown": {"|", "<", "a|"},
+						"json": {"\"", "\\", "\x01"}, "text": {"世", "x"}}[focus])
+				}
+				reps := 1500 + r.n(1500)
+				if r.chance(1, 3) {
+					reps = (3700 + r.n(600)) / len(unit) // raw just under 4 KiB, escaped just over
+				}
+				special = g.strItem(strings.Repeat(unit, reps))
 			case 3:
 				var ls []string
-				for i := 0; i < 60+r.n(60); i++ {
+				nl := 60 + r.n(60)
+				if r.chance(1, 3) {
+					nl = 500 + r.n(1800) // past every plausible fixed-size line table
+				}
+				for i := 0; i < nl; i++ {
 					ls = append(ls, r.text(alpha, 1))
 				}
 				special = g.strItem(strings.Join(ls, "\n"))
@@ -49,7 +64,7 @@ func sizeStream(prop, focus string, alpha []string) stream {
 			g.do("addheaders " + t + " " + joinC(hs))
 			fixed := cell()
 			for i := 0; i < nrows; i++ {
-				if c%5 == 4 && i%2 == 1 {
+				if c%8 == 6 && i%2 == 1 {
 					for k := 0; k < 1+r.n(30); k++ {
 						g.do("addsep " + t)
 					}
@@ -67,6 +82,12 @@ func sizeStream(prop, focus string, alpha []string) stream {
 					}
 				}
 				g.do("addrowitems " + t + " " + joinC(ids))
+			}
+			if r.chance(1, 2) {
+				g.do("addsep " + t) // the table ends in a separator
+				if r.chance(1, 2) {
+					g.do("addsep " + t)
+				}
 			}
 			if focus == "text" || focus == "markdown" {
 				g.assignProps(t, "align", alignVals)
@@ -115,8 +136,12 @@ func sizeStream(prop, focus string, alpha []string) stream {
 					if k < 0 || k >= n {
 						continue
 					}
-					for _, mode := range []string{"from", "only"} {
-						fc, ff := parseRes(g.do(fmt.Sprintf("frender %s %s:%d", w, mode, k)))
+					for _, mode := range []string{"from", "only", "partial"} {
+						script := fmt.Sprintf("%s:%d", mode, k)
+						if mode == "partial" {
+							script += fmt.Sprintf(":%d", 1+r.n(5000)) // the failing write accepts part of its bytes
+						}
+						fc, ff := parseRes(g.do("frender " + w + " " + script))
 						if fc == "ok" {
 							viol = append(viol, fmt.Sprintf("%s RenderTo returned nil with a writer failing %s write %d of %d", focus, mode, k, n))
 						}
